@@ -130,19 +130,22 @@ CLAIMS = {
         "the worker model is tied to process.c/fossil.c by digests after every script line (fixed checkpoint intervals); remote markers (2 ranks) are covered by runs only.",
    tech="Coq proof (invariant of an executable model of process.c over all scripts; checkpoint/restore exactness on the arena model) + op-by-op correspondence of process.c/fossil.c with the extracted worker model + differential allocator correspondence + rollback storms against the reference executor"),
  "C13": dict(cat="proof", ref="DESIGN.md §5 C13",
-   text="Theorems (Properties_C13.v, axiom-free): fossil collection keeps the newest checkpoint not after the target and every later one, re-bases their references so the kept log starts at 0, "
+   text="Theorems (Properties_C13.v, axiom-free): on the executable worker model (tied op by op to process.c/fossil.c), for every program, checkpoint interval and script: nothing queued or held "
+        "lies below the announced GVT, histories are in timestamp order, and every processed message released by a fossil collection has a timestamp below the GVT — so no message that can still "
+        "arrive reaches into what was released (conditional on the model's error flag, which marks out-of-bounds indexing in the C code and is never raised in any run). Allocator level: fossil collection keeps the newest checkpoint not after the target and every later one, re-bases their references so the kept log starts at 0, "
         "changes neither arenas nor size bookkeeping, and afterwards a restore to any index finds a checkpoint. Tie: allocator driver calling the real model_allocator_fossil_lp_collect/_checkpoint_restore "
         "with swept distances; LP-level driver and multi-thread runs with GVT periods down to 0: every entry released by a collection must lie strictly below the GVT it was given, and runs with "
         "rollbacks after fossil collections must still produce the reference digests.",
-   note=TB + "that the runtime passes the index of the last committed event is checked on traces, not proved.",
-   tech="Coq proof (log re-basing invariants) + differential correspondence + trace oracle (released entries below GVT) + rollback-after-fossil runs"),
+   note=TB + "that the worker model never raises its error flag is not proved (needs uniqueness of message identities and the flag protocol); the GVT of the worker model is the minimum of everything pending, as drv_lp announces it (the multi-thread GVT protocol is C04's).",
+   tech="Coq proof (invariants of an executable model of process.c/fossil.c over all scripts: pending >= GVT, timestamp-ordered histories, released < GVT; log re-basing invariants) + op-by-op correspondence with the extracted worker model + allocator correspondence + trace oracle + rollback-after-fossil runs"),
  "C15": dict(cat="proof", ref="DESIGN.md §5 C15",
    text="Theorems (Properties_C15.v, axiom-free): heap_insert/heap_extract (list model of the heap.h macros) preserve the multiset of elements for any comparator, even one that changes "
         "between calls; for every sequence of producer pushes, flag flips, extractions and peeks everything pushed = what is still queued + what was extracted (no loss, no duplication); "
-        "an extraction/peek empties the shared list into the heap first; for a strict weak order the heap loops keep the heap property and a minimal root. Tie: real msg_queue_insert/"
+        "an extraction/peek empties the shared list into the heap first; for a strict weak order the heap loops keep the heap property and a minimal root; under ANY comparator compatible with the "
+        "timestamp, even one that changes between calls (the real one reads ANTI bits that flip on queued messages), the array stays a heap for the timestamp and the root carries a smallest one. Tie: real msg_queue_insert/"
         "extract/time_peek with 1..4 producer threads and a consumer under the cooperative scheduler (points before the head load, every CAS attempt, the exchange, and a sender's ANTI "
         "flip); each schedule is replayed through the extracted model: every CAS outcome, extracted message and peeked time must agree (thousands of CAS retries and ties).",
-   note=TB + "SC atomics; hook-granularity atomicity; minimality under a comparator that changes while elements are queued is replayed, not proved.",
+   note=TB + "SC atomics; hook-granularity atomicity; minimality of the full content order under a comparator that changes while elements are queued is replayed; its timestamp component is proved.",
    tech="Coq proof (multiset preservation for arbitrary comparators, queue accounting invariant, heap invariants) + exact schedule replay through the extracted model"),
  "C02": dict(cat="proof", ref="DESIGN.md §5 C02",
    text="Theorems (Properties_C02.v, axiom-free): the capstone of C01 is rank-free — the abstract machine's pool holds every existing message wherever it is (buffer, queue, MPI flight) and "
